@@ -35,7 +35,8 @@ from ruamel.yaml.comments import CommentedSet  # noqa: E402
 NEW_VALUES = [9, 2.5, True, "new v", "zeta", 0, False, "b", None,
               9007199254740993, -1700000000123456789, 10.0, 5.0, -0.5,
               1e16, 1e22, -3e20, 0.00002, -1.5e-7, 12345.678, 1.2e16,
-              "two words here", "line one\nline two"]
+              "two words here", "line one\nline two",
+              "ends with a blank ", " begins with one", "two  blanks"]
 FORMATS = {"str": ["default", "dquote", "squote", "bare", "default",
                    "folded", "literal"],
            "int": ["default", "int"], "float": ["default", "float"],
@@ -1045,6 +1046,12 @@ def gen_op(rng, tree, prop, flow=False):
         value = rng.choice(NEW_VALUES)
         tname = snapshot.typed_scalar(value)[0]
         fmt = rng.choice(FORMATS[tname])
+        if isinstance(value, str) and value[:1] == " " \
+                and fmt in ("folded", "literal"):
+            # ruamel 0.17.21 writes a wrong indentation indicator for a block
+            # scalar whose first line starts with a blank (F23): its own dump
+            # does not load
+            fmt = "dquote"
         if flow and fmt in ("folded", "literal"):
             # a block scalar cannot live inside a flow collection; ruamel
             # then emits its internal fold markers (\a) into a quoted string
